@@ -159,12 +159,32 @@ func c19mRun(t *testing.T, h []int) (res seqx.Result) {
 				return
 			}
 		}
-		// closing: heal, two push/pull intervals, everything everywhere (joiner included)
+		// closing: heal; then everything is everywhere (joiner included) *eventually*. What was missed during a partition
+		// travels by push/pull only, and memberlist picks the push/pull partner at random (not under the harness's
+		// control), so no fixed number of intervals is guaranteed: poll once per interval, up to 40 of them.
 		m.healAll()
-		time.Sleep(130 * time.Second)
-		synctest.Wait()
-		check("after healing and two push/pull intervals", m.live())
-		res.Obs = fmt.Sprintf("made=%d insts=%d packets=%d streams=%d dropped=%d", len(made), len(m.inst), m.net.packets, m.net.streams, m.net.dropped)
+		missing := func() bool {
+			for _, in := range m.live() {
+				got := meshSilenceIDs(in)
+				for id, st := range made {
+					if g, ok := got[id]; !ok || g != st {
+						return true
+					}
+				}
+			}
+			return false
+		}
+		rounds := 0
+		for rounds = 1; rounds <= 40; rounds++ {
+			time.Sleep(65 * time.Second)
+			synctest.Wait()
+			if !missing() {
+				break
+			}
+		}
+		check("after healing and 40 push/pull intervals", m.live())
+		res.Obs = fmt.Sprintf("made=%d insts=%d", len(made), len(m.inst))
+		_ = rounds
 		m.stopAll()
 	})
 	return res
